@@ -191,3 +191,10 @@ Example C09_gate_is_source_inhabited :
   | _ => false
   end = true.
 Proof. vm_compute. reflexivity. Qed.
+
+(* the descriptor loops the sections that pass the gate are decoded with parse_descriptors: it and 21 of its 23 body parsers are the source as well.
+   The statement is Proofs/PsiGenDesc2.descriptor_parsers_tie, spelled out as C14_loop_is_source in Props/C14.v. *)
+Require Import Proofs.PsiGenDesc2.
+Theorem C09_descriptors_are_source : descriptor_parsers_tie.
+Proof. exact descriptor_loop_is_source. Qed.
+Print Assumptions C09_descriptors_are_source.
